@@ -192,6 +192,9 @@ def c11_4(ctx):
             'the inverse operations rebuild one row per listed value / group member / (x, y) cell',
             axioms=())
 def c11_5(ctx):
+    # unlist / ungroup rebuild the table with dictable.concat: no table -> empty table, one table -> itself, otherwise the merge
+    cc = ctx.repo.fn('_dictable:dictable.concat')
+    expect_guards(ctx, cc, [('len(others) == 0', 'return cls()', 'nothing to concatenate'), ('len(others) == 1', 'return others[0]', 'a single group / a single listed row')], where=cc.body)
     fn = ctx.repo.fn('_dictable:dictable.unlist')
     ctx.count(1, fn.where())
     # every non-empty table goes through concat of its rows; only the EMPTY table may be returned as is
